@@ -468,8 +468,9 @@ def run(ctx):
     ctx.assumes.append("model = /repo (incl. its commits f430c25 'contract_einsum looked up an einsum label in a list of positions', 0a2ab96 is_consistent leg count) "
                        "with proposed_fixes/C07-single-leaf-root-transpose.diff (contract_tree transposes the stored tensor of a single-leaf root by the root permutation; "
                        "the model's tree_eval reads a leaf's dictionary entry as the stored tensor laid out by the leaf's idxout); "
-                       "tensor data are ring elements (exact arithmetic); the tree path is proved through a verified checker (check_root_sound) executed in Coq on "
-                       "every tree of the run (the universal theorem about the builder is not proved)")
+                       "tensor data are ring elements (exact arithmetic); the tree path is PROVED for every admissible scaffold (C07_builder_tree_is_defining_sum: "
+                       "builder invariant TNBuilder + root check TNBuilderRoot + root permutation TNPermute); the verified checker (check_root_sound) is still executed in "
+                       "Coq on every tree of the run as translation validation of the port; permute_axes: C07_permute_axes_keeps_value (all trees, paths, permutations)")
     ctx.trusted.append("TN translation (gen/tn.py -> Run.GenTN, fail-closed): merge's fresh-id arithmetic / join validation / del_axes / kept axes, "
                        "the preconditions of rename_tensor, rename_bond, SymbolicBond, SymbolicTensor.transpose, every `return False` condition of "
                        "is_consistent, the first tree id and bump rule, as_einsum's sort key and axes-map rule, rename_tensor's guard on the virtual tensor and its "
@@ -485,7 +486,7 @@ def run(ctx):
                      "tree, then transpose/rename/merge on the same object) against the brute-force defining sum of the current state; scaffolds: all binary trees with "
                      "both child orders for n<=3 (thorough: n<=5), random otherwise. non-trivial = >=2 tensors and one of hyper-bond, "
                      "multi-edge, shared open bond, self-trace")
-    ctx.lib(["TN/TNCheck", "TN/TNTreeCheck", "TN/TNConsistentConv", "TN/TNGenBase"])
+    ctx.lib(["TN/TNCheck", "TN/TNTreeCheck", "TN/TNConsistentConv", "TN/TNGenBase", "TN/TNRootPermute"])
     ctx.translate("GenTN", tn.generate)
     ctx.props()
     rng = ctx.rng
